@@ -2,7 +2,9 @@ import Xp.Model.C14
 import Xp.Proofs.C14
 import Xp.Proofs.C14Rev
 import Xp.Proofs.C14World
+import Xp.Proofs.C14Copy
 import Xp.Gen.PkgNames
+import Xp.Gen.C14Skel
 /-
 C14 — a package has at most one active revision, numbered last; history GC
 spares it.  Theorems about the model `Xp.C14.pkgReconcile` (Model/C14.lean, the
@@ -72,7 +74,7 @@ theorem current_strictly_highest (env : Env) (pname : String) (plan : Plan) (s s
     (hrun : run sem plan 0 (pkgReconcile env pname) s = (s', some (.done cur after))) :
     ∃ rev ∈ s'.revs, rev.name = cur ∧ rev.parent = some pname ∧
       ∀ x ∈ s'.revs, labelled pname x = true → x.name ≠ cur → x.number < rev.number := by
-  obtain ⟨p, h1, h2, h3, rev, h4, h5, h6, _, _, _, h10, h11⟩ :=
+  obtain ⟨p, h1, h2, h3, rev, h4, h5, h6, _, _, _, h10, h11, _⟩ :=
     Tri.run plan 0 _ s (reconcile_tri env pname _ s (strictB_ok env pname s hdist)) s' _ hrun cur after rfl
   refine ⟨rev, h4, h5, h6, ?_⟩
   intro x hx lx hne
@@ -637,6 +639,181 @@ set_option maxRecDepth 100000 in
 example : (runW touchSched 0 (pkgReconcile nfEnv "p") nfWorld).2 = some .requeue ∧
     ((runW touchSched 0 (pkgReconcile nfEnv "p") nfWorld).1.live.revs.map fun r => (r.name, r.state, r.fin))
       = [("p-1111111111aa", .active, true)] := by
+  decide
+
+/-! ### regenerated call skeletons: the mirrored Go functions still have the modelled shape (tie "a")
+
+`Xp.Gen.c14Skel*` are extracted with go/ast from the CURRENT tree on every check run
+(harness/main/c14_dump.go); the declared skeletons sit next to the model definitions that mirror them
+(Model/C14.lean), one entry per call with the model step that mirrors it. -/
+
+/-- `Reconciler.Reconcile`: Get, [paused: Status.Update ×2], List, PullSecretFor, Revision, [3 early Status.Update],
+the loop (SetDesiredState, Apply), SetRevision, Delete, Apply, Update, pullBasedRequeue, Status.Update -/
+theorem skeleton_reconcile : Xp.Gen.c14SkelReconcile = skelReconcile := by decide
+
+/-- `PackageRevisioner.Revision`: pull-policy shortcuts, ParseReference, RefNames, Head, FriendlyID, with its returns -/
+theorem skeleton_revision : Xp.Gen.c14SkelRevision = skelRevision := by decide
+
+theorem skeleton_friendly_id : Xp.Gen.c14SkelFriendlyID = skelFriendlyID := by decide
+
+theorem skeleton_to_dns_label : Xp.Gen.c14SkelToDNSLabel = skelToDNSLabel := by decide
+
+/-- `xpkg.K8sFetcher.Head`: keychain, HEAD, and on failure a GET of the same reference whose descriptor is returned
+as it is (not an image resolved from it) -/
+theorem skeleton_fetcher_head : Xp.Gen.c14SkelFetcherHead = skelFetcherHead := by decide
+
+theorem skeleton_pull_based_requeue : Xp.Gen.c14SkelPullBasedRequeue = skelPullBasedRequeue := by decide
+
+/-- crossplane-runtime `APIPatchingApplicator.Apply` (the module source the harness is linked against):
+[Create of a nameless object,] DeepCopy, Get, Create on NotFound, the ApplyOption, Patch — what `applyRev` mirrors -/
+theorem skeleton_apply : Xp.Gen.c14SkelApply = skelApply := by decide
+
+/-- crossplane-runtime `resource.MustBeControllableBy`: GetControllerOf and its four verdicts — `controllable` -/
+theorem skeleton_must_be_controllable_by : Xp.Gen.c14SkelMustBeControllableBy = skelMustBeControllableBy := by decide
+
+set_option maxRecDepth 100000 in
+/-- The declared skeleton of `Reconcile` is a function of the model: the entries flagged as lying on the
+complete path are — apart from `pkg.Revision`, which is no API call (`revisionName`) — exactly the source calls
+(`Req.srcCall`) of the requests `pkgReconcile` applies on the skeleton scenario, in that order. -/
+theorem skeleton_reconcile_from_model :
+    ((skelReconcileTagged.filter (·.2)).map (·.1)).filter (· ≠ "pkg.Revision") =
+      (applied sem Plan.allOk 0 (pkgReconcile skelEnv "p") skelStore).filterMap Req.srcCall := by
+  decide
+
+/-- `Apply` as a function of the model: Get then Patch (object exists), Get then Create (NotFound) are the two
+request sequences of `applyRev`; the declared skeleton lists Get, Create, Patch after the nameless-object Create
+and DeepCopy, with the NotFound test and the ApplyOption between them. -/
+theorem skeleton_apply_from_model :
+    skelApply.filter (fun c => c = "client.Get" ∨ c = "client.Patch") =
+        (applied sem Plan.allOk 0 (applyRev (skelStore.revs.headD newRev) true "u-p") skelStore).map
+          (fun r => match r with | .getRev _ => "client.Get" | .patchRev _ => "client.Patch" | _ => "?") ∧
+    (skelApply.drop 1).filter (fun c => c = "client.Get" ∨ c = "client.Create") =
+        (applied sem Plan.allOk 0 (applyRev { newRev with name := "fresh" } false "u-p") skelStore).map
+          (fun r => match r with | .getRev _ => "client.Get" | .createRev _ _ => "client.Create" | _ => "?") := by
+  decide
+
+/-! ### the package's conditions -/
+
+/-- the package is reported Installed=True (Active) exactly when its current revision is Active after the
+reconcile - in particular under Manual activation an Inactive current revision reports Installed=False -/
+theorem package_installed_iff_current_revision_active (h : Cond) (st : State) :
+    (pkgConditions h st).2 = .true ↔ st = .active := by
+  unfold pkgConditions; by_cases e : st = .active <;> simp [e]
+
+/-- the package's health is the listed current revision's; a revision that has no Healthy condition yet (a new
+one) makes the package's health Unknown - never Healthy -/
+theorem package_health_follows_current_revision (h : Cond) (st : State) :
+    (h ≠ .unset → (pkgConditions h st).1 = h) ∧ (h = .unset → (pkgConditions h st).1 = .unknown) := by
+  unfold pkgConditions; cases h <;> simp
+
+example : pkgConditions .false .inactive = (.false, .false) ∧ pkgConditions .unset .active = (.unknown, .true) := by decide
+
+/-! ### the spec copy package → revision -/
+
+/-- The table of copied fields of the current tree (go/ast: the `pr.SetX(p.GetX())` / `prwr.SetX(pwr.GetX())`
+statements of `Reconcile`, in order; the JSON leaves by RUNNING each setter / getter on probe objects) is the
+table the model declares: adding, dropping or re-pointing a copy breaks this obligation. -/
+theorem copied_fields_match_source : Xp.Gen.c14CopiedFields = copiedFields := by decide
+
+/-- `Rev.extra` / `Spec.extra` hold exactly the revision-side leaves of that table other than the ones `Rev`
+models as own fields (image, commonLabels) or leaves out (TLS names). -/
+theorem extra_keys_are_the_copied_leaves :
+    (∀ k ∈ extraKeys, (copiedFields.any fun t => t.2.2.1.contains k) = true ∧ k ∉ ownLeaves) ∧
+    (∀ t ∈ copiedFields, ∀ k ∈ t.2.2.1, k ∈ extraKeys ∨ k ∈ ownLeaves) := by decide
+
+/-- THE SPEC COPY, final state, every fault plan: if a reconcile runs to completion the revision named after
+the current source carries the package's image, exactly the package's commonLabels, and EVERY leaf the package
+serialises for the other copied fields (pull policy, pull secrets, the two flags, runtime / controller config
+reference), with the package's value.  (A leaf the package does NOT serialise is a different matter:
+`cleared_field_stays_on_existing_revision_witness`.) -/
+theorem current_revision_carries_package_fields (env : Env) (pname : String) (plan : Plan) (s s' : Store)
+    (cur : String) (after : Bool)
+    (hrun : run sem plan 0 (pkgReconcile env pname) s = (s', some (.done cur after))) :
+    ∃ p, s.pkg = some p ∧ ∃ rev ∈ s'.revs, rev.name = cur ∧ rev.image = p.spec.source ∧
+      rev.labels = p.spec.labels ∧
+      (KeysNodup (copiedExtra p.spec) → ∀ kv ∈ copiedExtra p.spec, getL kv.1 rev.extra = some kv.2) := by
+  have hB : NumLeO pname (curOf env s) (maxRevision (s.revs.filter (labelled pname))) s.revs :=
+    fun x hx lx _ => le_maxRevision (List.mem_filter.mpr ⟨hx, lx⟩)
+  obtain ⟨p, h1, _, _, rev, h4, h5, _, _, _, h9, _, _, hcov, hlab⟩ :=
+    Tri.run plan 0 _ s (reconcile_tri env pname _ s hB) s' _ hrun cur after rfl
+  exact ⟨p, h1, rev, h4, h5, h9, hlab, hcov⟩
+
+/-- … and what the copy consists of, request by request, for every fault plan: a Create the API server can
+accept creates THE desired current revision — image, commonLabels and copied leaves EXACTLY the package's
+(nothing more: a fresh revision has no stale leaf), labelled and controlled by the package; a Patch sends that
+same object or a listed revision set Inactive (whose copied leaves are the ones it was listed with); an
+Update carries the package's commonLabels. -/
+theorem revision_writes_carry_the_package_copy (env : Env) (pname : String) (plan : Plan) (k : Nat) (s : Store)
+    (p : Pkg) (cur : String) (hp : s.pkg = some p) (hcur : revisionName env p = .ok cur) :
+    ∀ r ∈ applied sem plan k (pkgReconcile env pname) s,
+      (∀ d, r = .createRev d false →
+        d.name = cur ∧ d.parent = some p.name ∧ d.image = p.spec.source ∧ d.labels = p.spec.labels ∧
+        d.extra = copiedExtra p.spec) ∧
+      (∀ d, r = .patchRev d →
+        (d.image = p.spec.source ∧ d.labels = p.spec.labels ∧ d.extra = copiedExtra p.spec) ∨
+        ∃ x ∈ s.revs, d = { x with state := .inactive }) ∧
+      (∀ d, r = .updateRev d → d.labels = p.spec.labels) := by
+  intro r hr
+  obtain ⟨h1, h2, h3⟩ := Tri.applied plan k _ s (reconcile_copy_tri env pname s p hp) r hr cur hcur
+  refine ⟨?_, ?_, h3⟩
+  · intro d e
+    rw [h1 d e]
+    exact ⟨rfl, rfl, rfl, rfl, rfl⟩
+  · intro d e
+    rcases h2 d e with e' | ⟨x, hx, e'⟩
+    · rw [e']; exact .inl ⟨rfl, rfl, rfl⟩
+    · exact .inr ⟨x, (List.mem_filter.mp hx).1, e'⟩
+
+/-- The API server side of the copy (`mergeRev`, crossplane-runtime's Apply sends the WHOLE desired object as a
+JSON merge patch): every leaf the desired object serialises is stored, every other leaf stays as stored. -/
+theorem merge_patch_stores_serialised_leaves_only (stored d : Rev) (k : String) :
+    (KeysNodup d.extra → ∀ v, (k, v) ∈ d.extra → getL k (mergeRev stored d).extra = some v) ∧
+    (k ∉ d.extra.map (·.1) → getL k (mergeRev stored d).extra = getL k stored.extra) :=
+  ⟨fun hn v h => getL_merge_mem d.extra stored.extra hn (k, v) h, fun h => getL_merge_notin k d.extra stored.extra h⟩
+
+/-- a package whose pull secrets were REMOVED (`extra := []`) after its current revision was created with them -/
+def clearedStore : Store :=
+  { pkg := some { name := "p", uid := "u-p",
+                  spec := { source := "xpkg.io/org/pkg:v1", limit := none, policy := .unset, pull := .unset, paused := false, labels := [], extra := [] },
+                  status := { curRev := "p-1111111111aa", curId := "xpkg.io/org/pkg:v1", pausedCond := false } }
+    revs := [ { name := "p-1111111111aa", parent := some "p", number := 1, state := .active, ctrl := some "u-p", image := "xpkg.io/org/pkg:v1",
+                labels := [], fin := true, deleting := false, extra := [("packagePullSecrets", "s1"), ("skipDependencyResolution", "true")] } ] }
+
+def clearedEnv : Env := { head := fun _ => .digest "1111111111aa0000", parseOk := fun _ => true }
+
+set_option maxRecDepth 100000 in
+/-- What the copy does NOT do (the code as it is; recorded as an observation, not a clause of C14): a copied
+field that is CLEARED on the package (pull secrets removed, a flag unset) is not cleared on the existing current
+revision — the desired object does not serialise the empty field (`omitempty`), the merge patch leaves the stored
+leaf alone, and only commonLabels get the follow-up Update.  The reconcile completes and the revision keeps
+`packagePullSecrets = s1`. -/
+theorem cleared_field_stays_on_existing_revision_witness :
+    (run sem Plan.allOk 0 (pkgReconcile clearedEnv "p") clearedStore).2 = some (.done "p-1111111111aa" false) ∧
+    (run sem Plan.allOk 0 (pkgReconcile clearedEnv "p") clearedStore).1.revs.map (fun r => (r.name, r.extra)) =
+      [("p-1111111111aa", [("packagePullSecrets", "s1"), ("skipDependencyResolution", "true")])] := by
+  decide
+
+/-- the hypotheses of the copy theorems are satisfiable by a non-trivial state: a package with a pull policy,
+pull secrets and a runtime config whose revision exists with OTHER values; the completed reconcile stores the
+package's values -/
+def copyStore : Store :=
+  { pkg := some { name := "p", uid := "u-p",
+                  spec := { source := "xpkg.io/org/pkg:v1", limit := none, policy := .unset, pull := .ifNotPresent, paused := false, labels := [("a", "1")],
+                            extra := [("packagePullSecrets", "s2"), ("runtimeConfigRef.name", "rc1")] },
+                  status := { curRev := "", curId := "", pausedCond := false } }
+    revs := [ { name := "p-1111111111aa", parent := some "p", number := 1, state := .inactive, ctrl := some "u-p", image := "old",
+                labels := [], fin := true, deleting := false, extra := [("packagePullSecrets", "s1"), ("skipDependencyResolution", "true")] } ] }
+
+set_option maxRecDepth 100000 in
+example : (∀ p, copyStore.pkg = some p → KeysNodup (copiedExtra p.spec)) ∧
+    (run sem Plan.allOk 0 (pkgReconcile clearedEnv "p") copyStore).2 = some (.done "p-1111111111aa" false) ∧
+    (run sem Plan.allOk 0 (pkgReconcile clearedEnv "p") copyStore).1.revs.map (fun r => (r.image, r.labels, r.extra)) =
+      [("xpkg.io/org/pkg:v1", [("a", "1")],
+        [("packagePullPolicy", "IfNotPresent"), ("packagePullSecrets", "s2"), ("runtimeConfigRef.name", "rc1"), ("skipDependencyResolution", "true")])] := by
+  decide
+
+example : (applied sem Plan.allOk 0 (pkgReconcile clearedEnv "p") { copyStore with revs := [] }).any
+    (fun r => match r with | .createRev d false => d.extra == [("packagePullPolicy", "IfNotPresent"), ("packagePullSecrets", "s2"), ("runtimeConfigRef.name", "rc1")] | _ => false) = true := by
   decide
 
 end Xp.C14
